@@ -4,11 +4,16 @@
  "file": "attr.c", "function": "attr", "also_functions": ["attrspec", "parseattr", "strip"],
  "properties": {"C10": "contract", "C06": "contract", "C19": "safety"},
  "mode": "harness",
- "unwind": 10,
- "variants": {"k0": ["-DV_K=0"], "k1": ["-DV_K=1"], "k2": ["-DV_K=2"], "k3": ["-DV_K=3"]},
- "canary_variant": "k2",
+ "unwind": 12, "unwindset": ["attr.0:5", "attrspec.0:4", "parseattr.0:3", "harness.0:4"],
+ "variants": {"k0":      ["-DV_K=0", "-DV_S0=0", "-DV_S1=0", "-DV_S2=0"],
+              "k1_e":    ["-DV_K=1", "-DV_S0=SP_EMPTY", "-DV_S1=0", "-DV_S2=0"],
+              "k1_fp":   ["-DV_K=1", "-DV_S0=SP_FOO_GNU_PACKED", "-DV_S1=0", "-DV_S2=0"],
+              "k2_f_p":  ["-DV_K=2", "-DV_S0=SP_FOO", "-DV_S1=SP_GNU_PACKED", "-DV_S2=0"],
+              "k2_p_e":  ["-DV_K=2", "-DV_S0=SP_GNU_PACKED", "-DV_S1=SP_EMPTY", "-DV_S2=0"],
+              "k3_e_fp_f": ["-DV_K=3", "-DV_S0=SP_EMPTY", "-DV_S1=SP_FOO_GNU_PACKED", "-DV_S2=SP_FOO"]},
+ "canary_variant": "k2_f_p",
  "kind": "bounded",
- "bound": "0..3 attribute specifiers in a row, each `[[]]`, `[[foo]]`, `[[gnu::packed]]` or `[[foo, gnu::packed]]`, followed by one of `;`, an identifier, or `[ 1 ]` (an array declarator, which starts with a single `[`)",
+ "bound": "6 shapes (token kinds constant per CBMC run, the rest symbolic) of 0..3 attribute specifiers in a row, each `[[]]`, `[[foo]]`, `[[gnu::packed]]` or `[[foo, gnu::packed]]`, followed by one of `;`, an identifier, or `[ 1 ]` (an array declarator, which starts with a single `[`)",
  "timeout": 200, "replay": false,
  "assumes": ["next/peek/consume/expect are token-script stand-ins with pp.c's meaning (attr_common2.h); what one specifier may contain is ATTR.attrspec's business"]
 }
@@ -29,7 +34,8 @@ harness(void)
 {
 	static struct attr am;
 	struct attr *a;
-	IN(unsigned, in_s0); IN(unsigned, in_s1); IN(unsigned, in_s2); IN(unsigned, in_term);
+	IN(unsigned, in_term);
+	unsigned in_s0 = V_S0, in_s1 = V_S1, in_s2 = V_S2;          /* compile-time case split: fixes the script layout */
 	IN(bool, in_hasa); IN(int, in_oldkind);
 	unsigned sp[3] = {in_s0, in_s1, in_s2};
 	unsigned j, endpos;
@@ -68,6 +74,6 @@ harness(void)
 	__CPROVER_assert(IMP(in_hasa, (int)am.kind == (in_oldkind | (packed ? ATTRPACKED : 0))), "the attributes of ALL specifiers are recorded (union), nothing else");
 	__CPROVER_assert(IMP(!in_hasa, (int)am.kind == in_oldkind) && am.align == 0, "without a result object nothing is written");
 #ifdef VERIF_CANARY
-	__CPROVER_assert(!(in_s0 == SP_FOO && in_s1 == SP_GNU_PACKED && in_term == T_ARRAY), "CANARY");
+	__CPROVER_assert(!(in_term == T_ARRAY && in_hasa), "CANARY");
 #endif
 }
